@@ -402,6 +402,8 @@ def o_term(rec, world, hist=None):
         booted = {ev[4] for ev in rec.events if ev[3] == "thread-boot" and ev[0] < ix.run_exit}
         late = [ev for ev in exits if ev[0] > ix.run_exit
                 and not (tags.get("inside_thread_start_after_spawn") and ev[4] not in booted)]
+        if len(late) < sum(1 for ev in exits if ev[0] > ix.run_exit):
+            sim.probe("late-exit-of-a-thread-that-had-not-begun-to-run")   # (how often the allowance above applied)
         if late:
             out.append(V("thread-exit-after-return", "a thread created by run exited only after run returned", **tags))
     if rec.rt.inflight != 0 or rec.rt.inflight_mtime != 0:
